@@ -332,7 +332,7 @@ def gen_plan(seed, tier):
       seed, tier, n_ops=(5, 14), dmax=5, pre_p=0.35, fresh_p=0.01 if tier == "thorough" else 0.006,
       weights=dict(query=22, refit=10, threshold=4, calibrate=2, handout=0, mutate=0,
                    restart=16, clone=14, ambient=3, eigsh=2, set_nondata=8, failfit=2,
-                   fault=0, new=14, swap_pre=6, interrupt=3), failfirst_p=0.25, view_p=0.3)
+                   fault=0, new=14, swap_pre=6, interrupt=3), failfirst_p=0.25, view_p=0.3, wide_p=0.03)
 
 
 SWEEP_SEED = [None]
